@@ -254,7 +254,7 @@ def run(pid, tier, seed, replay=None):
 
 def builder_tags(tag):
     t = tag.split(':')[0]
-    return ['C16'] if t.startswith('sinks.') or t.startswith('panic') else []
+    return ['C16'] if t.startswith('sinks.') or t.startswith('panic') else []     # (incl. sinks.exact_size_slice)
 
 
 def builder_job():
